@@ -964,7 +964,7 @@ extern "C" int LLVMFuzzerTestOneInput(const uint8_t* data, size_t size)
 		for(auto& c : registry())
 			// not under the fuzzer: fork-isolated clauses, the clause whose children really call exit (libFuzzer's exit hook would report each as a
 			// crash), and the batch clauses (one case = hundreds of minimisations / integrations)
-			if(!c.isolate && c.name != "real_process" && c.name != "nelder_mead_convergence_rate" && c.name != "unbiasedness" && (!want || c.name == want))
+			if(!c.isolate && c.name != "real_process" && c.name != "nelder_mead_convergence_rate" && c.name != "unbiasedness" && !(std::string(kPropertyId) == "C13" && c.name != "methods_1d") && (!want || c.name == want))
 				usable.push_back(&c);
 		if(usable.empty())
 			return 0;
